@@ -21,3 +21,10 @@ package ast_groovy
 //@ spec StmtPath(bs Node) Node := Child(Kid(Kid(Kid(Kid(Kid(bs, 0), 0), 0), 0), 0), "pathExpression")
 //@ func buildStatementDependency
 //@ ensures result != nil ==> (*result).Scope == GetText(Kid(StmtPath(blockStatement), 0))
+
+// C19: every statement of the dependencies block is looked at; one that is a dependency statement contributes exactly
+// that dependency, appended once and last; any other contributes nothing
+//@ func buildBlockStatements
+//@ requires closureContext != nil
+//@ loop 1 invariant true
+//@ loop 1 assert (result != nil ==> len(results) == len(results@pre) + 1 && results[len(results) - 1] == *result) && (result == nil ==> results == results@pre)
